@@ -36,6 +36,31 @@ type connCase struct {
 	Log      []refcodec.Batch `json:"log,omitempty"`
 	Start    int64            `json:"start"`     // fetch operations: first offset wanted; -1 = "first" (resolved by the Conn through ListOffsets)
 	MaxBytes int              `json:"max_bytes"` // fetch operations
+	// DL "op": only the deadline of the operation's own direction is set (SetWriteDeadline for write operations,
+	// SetReadDeadline for the others), the other one is cleared; "" = SetDeadline.
+	DL string `json:"dl,omitempty"`
+}
+
+// writeOps are the operations that Conn documents as writes (they observe the write deadline, also while they wait for
+// the response and while they negotiate versions).
+var writeOps = map[string]bool{"WriteMessages": true, "WriteCompressedMessages": true, "WriteCompressedMessagesAt": true, "CreateTopics": true, "DeleteTopics": true}
+
+// readOps: exported operations that observe the read deadline (the unexported group operations are left out: which
+// deadline they observe is not documented).
+var readOps = map[string]bool{"ApiVersions": true, "Controller": true, "Brokers": true, "ReadPartitions": true, "ReadFirstOffset": true, "ReadLastOffset": true, "ReadOffset": true,
+	"ReadOffsets": true, "SeekStart": true, "SeekEnd": true}
+
+func setDL(conn *kafka.Conn, c connCase, t time.Time) {
+	switch {
+	case c.DL == "op" && writeOps[c.Op]:
+		conn.SetReadDeadline(time.Time{})
+		conn.SetWriteDeadline(t)
+	case c.DL == "op":
+		conn.SetWriteDeadline(time.Time{})
+		conn.SetReadDeadline(t)
+	default:
+		conn.SetDeadline(t)
+	}
 }
 
 func init() { ev.Register("conn", func(tb ev.TB, c connCase) { runConn(tb, c, nil) }) }
@@ -551,7 +576,7 @@ func execute(tb ev.TB, fx *fixture, c connCase, mode string) (res opResult, p *p
 			hitAt = time.Now()
 			hitMu.Unlock()
 			if e.conn != nil {
-				e.conn.SetDeadline(time.Now().Add(stallDeadline))
+				setDL(e.conn, c, time.Now().Add(stallDeadline))
 			}
 			if e.cancel != nil {
 				time.AfterFunc(stallDeadline, e.cancel)
@@ -573,7 +598,7 @@ func execute(tb ev.TB, fx *fixture, c connCase, mode string) (res opResult, p *p
 				tb.Fatalf("harness: preparation of %s failed: %v", c.Op, err)
 			}
 		}
-		conn.SetDeadline(time.Now().Add(deadline))
+		setDL(conn, c, time.Now().Add(deadline))
 	} else {
 		p.connID = len(fx.nw.Conns()) + 1
 	}
@@ -964,15 +989,22 @@ func enumerateGroup(tb ev.TB, g connCase, rnd func(n int) int, all bool) {
 		}
 		c := g
 		c.K, c.Variant = k, "stall"
-		wg.Add(1)
-		go func() {
-			defer wg.Done()
-			if msg := inGoroutine(func(tb ev.TB) { evalConn(tb, c, base, nil) }); msg != "" {
-				fmu.Lock()
-				failed = append(failed, msg)
-				fmu.Unlock()
-			}
-		}()
+		variants := []connCase{c}
+		if !op.dials && (writeOps[g.Op] || readOps[g.Op]) {
+			c.DL = "op" // only the deadline of the operation's own direction is set
+			variants = append(variants, c)
+		}
+		for _, c := range variants {
+			wg.Add(1)
+			go func() {
+				defer wg.Done()
+				if msg := inGoroutine(func(tb ev.TB) { evalConn(tb, c, base, nil) }); msg != "" {
+					fmu.Lock()
+					failed = append(failed, msg)
+					fmu.Unlock()
+				}
+			}()
+		}
 	}
 	wg.Wait()
 	if len(failed) > 0 {
